@@ -442,6 +442,8 @@ func init() {
 			"Each is delivered through Parse, ParseString, ParseReader, Write*, BytesDecoder.Next*, Decoder.Next* with whole / 1-byte / mixed chunking and buffer sizes 1..4096. " +
 			"Monitors: panic guard; loop-progress hook (more than 2000 iterations of a feed/Next loop without consuming a byte or delivering an event = hang) plus CPU-time watchdog; event budget 64+8*len; " +
 			"TotalAlloc delta around calls with unbacked length fields; truncation verdict: if the reference decoder classifies the input as ending inside a value, every end-aware entry point must return an error other than io.EOF. " +
+			"Suite scaling: 64 KiB..2 MiB inputs of extreme shapes (one long string/key/number literal, 10^5..10^6 nesting levels, 10^5..10^6 tiny values or documents, no-op runs, unclosed containers) through 13 delivery modes (whole, 1/3/17/4099-byte writes and reads, decoder buffers 16..65536): " +
+			"TotalAlloc delta <= 2 MiB + 96*len + 320*depth (the last term is the monitor's own stack), event budget, loop-progress hook, and a 20 CPU-second watchdog per case that turns super-linear time into a hang verdict (constant work per byte needs < 1 s). " +
 			"distinct_nontrivial = distinct (codec, input) among generated inputs; exhaustive blocks count once each.",
 		Assumptions: []string{
 			"no particular verdict is demanded for malformed-but-not-truncated input",
